@@ -1,4 +1,4 @@
-//go:build comp_all || comp_fwrules
+//go:build comp_all || comp_fwrules || comp_fwconfig
 
 package main
 
@@ -510,7 +510,7 @@ func runFwRules(c *hx.Ctx, addrFocus bool) {
 	if addrFocus {
 		check = "Firewall_corr.check_c17"
 	}
-	cw := c.NewCaseWriter("From NV Require Import lib.Ip model.Firewall corr.Firewall_corr.", "Firewall_corr.case", check, 150)
+	cw := c.NewCaseWriter("From NV Require Import lib.Ip model.Firewall corr.Firewall_corr.", "Firewall_corr.case", check, 80)
 	nCases := c.N
 	for ci := 0; ci < nCases; ci++ {
 		w := &fwWorld{c: c}
